@@ -1,5 +1,6 @@
 #!/bin/bash
 # usage: tools/seedkeep.sh <name> <property> [worktree-id] — evaluate a seeded change and keep it under /verif/seeded/<name>/
+touch /tmp/.seedstart.$$
 name=$1; prop=$2
 d=/verif/seeded/$name
 mkdir -p $d
@@ -27,4 +28,4 @@ m['what_i_ran']='tools/seedeval.sh %s %s: demo without/with the change in a scra
 json.dump(m,open(d+'meta.json','w'),indent=1)
 print(name,'demo_ok_without=',m['confirmed_demo_passes_without_change'],'demo_fails_with=',m['confirmed_demo_fails_with_change'],'pinned_ok=',m['pinned_tests_pass_with_change'],'check_caught=',m['check_caught'],'|',m['check_reported'])
 PY
-find /verif/replays -type f -mmin +600 -delete
+find /verif/replays -type f -newer /tmp/.seedstart.$$ -delete; rm -f /tmp/.seedstart.$$
